@@ -106,7 +106,22 @@ func (s *checkpoint) Save() {
 
 	if err == nil {
 		logger.Log.Trace("saved checkpoint")
-		s.stream.UnmarkDirtyOffsets()
+
+		// forget only what was stored: a vBucket acknowledged while the store call
+		// was in flight has moved on and stays dirty for the next save
+		for vbID, doc := range checkpointDump {
+			if !dirtyOffsetsDump[vbID] {
+				continue
+			}
+
+			if current, ok := offsets.Load(vbID); ok && current.SeqNo == doc.Checkpoint.SeqNo {
+				dirtyOffsets.Delete(vbID)
+			}
+		}
+
+		if dirtyOffsets.Count() == 0 {
+			s.stream.UnmarkDirtyOffsets()
+		}
 	} else {
 		logger.Log.Error("error while saving checkpoint document: %v", err)
 	}
